@@ -183,16 +183,18 @@ the SRT, WebVTT, SSA and STL reader loops; `2a237d5`: one line at the top of the
 
 %s
 
-241 property-breaking changes were written by sub-agents that saw only property texts and a scratch worktree: 47
+281 property-breaking changes were written by sub-agents that saw only property texts and a scratch worktree: 47
 "plausible refactoring" seeds in five batches, 96 mutation-testing style changes in three batches (four per source file or
 area, including the command-line tool), 36 mutants aimed at one property each, 22 mutants of functions no earlier round
-had touched, and 40 "subtle" seeds that only show under rare conditions. 238 of them break a property as stated and all
-238 are caught by the quick tier (the CLI mutants by C07, which drives the tool). Three are not flagged, and should not
+had touched, and 80 "subtle" seeds in two batches that only show under rare conditions (the second batch was given the
+summaries of the first and asked for something else). 278 of them break a property as stated and all 278 are caught by
+the quick tier (the CLI mutants by C07, which drives the tool). Three are not flagged, and should not
 be: C06-c is an equivalent change (it only merges two runs with identical attributes); P6-2 changes the handling of X/28
 format bits the statement of C06 does not cover (character-set *designation* through X/28 / M/29 is modelled since the
 sixth batch, family D); R1-2 changes a helper (`WebVTTTimestampMap.Offset`) that nothing in the library calls and no
-statement mentions. About seventy-five of the 238 were missed or barely caught when first run (or would have been, judging
-from their description, and were pre-empted) - 24 of the 40 subtle ones, which is what that batch was for; every miss
+statement mentions. About ninety of the 278 were missed or barely caught when first run (or would have been, judging
+from their description, and were pre-empted) - 24 of the first 40 subtle ones and 15 of the second 40, which is what
+those batches were for; every miss
 was answered by widening a *generator* or the *model* (never by loosening an oracle, never by special-casing the seeded
 input): new families (WebVTT N and K, TTML L and A, SSA I, teletext I, M and D), new rendering choices (per-row box
 patterns, comment-like and non-dialogue lines in SubStation files, inline timestamps without hours, text-like bytes in
@@ -200,11 +202,14 @@ enhancement packets, prefixed TTML elements, a font tag with a leading attribute
 classes (33-bit MPEG-TS time stamps, tick counts beyond 32 bits, times beyond 24 h, full-width GSI and text fields, literal
 entity sequences, one-character runs, two-line text atoms, style names around "Default", file names with capitals, cues
 without text, empty lines, texts that begin like block keywords, override blocks without text, sub-millisecond time units,
-cues before zero, slope 0, blank GSI fields, a programme start that is not a whole number of frames), new observations
+cues before zero, slope 0, blank GSI fields, a programme start that is not a whole number of frames, upper-case colour
+spellings, zero-padded integers, signed numbers in GSI fields, filler look-alike cues, keys differing in case only,
+multi-line comments, stacked combining marks, file names with several dots), new observations
 (zero-valued reader options, Open with options, definitions stored under foreign map keys or sharing an ID, a
 `bytes.Reader` reference delivery, faults whose error value is `io.ErrUnexpectedEOF`, a destination that exists already
 or cannot be written, a text identity of the harness's own instead of `Item.String`, alone-runs repeated in the opposite
-order and in fresh processes) and a systematic pass of every operation kind over 16 goroutines for C20. Remarks of
+order and in fresh processes, aliasing probes, seekable short-read deliveries, unfaulted writes re-read for completeness,
+twin parent objects, either order of the SubStation sections, designation codes) and a systematic pass of every operation kind over 16 goroutines for C20. Remarks of
 sub-agents led to genuine defects being found and repaired: the teletext reader could not be driven through short reads
 (`be3a749`), `WriteToSSA` depended on map order for styles sharing an ID (`0f38ecf`), the teletext input wrapper spun on
 `io.ErrUnexpectedEOF` (`0ebbb2c`, `08027ad`). After each round earlier changes were re-run (`seedtool.sh runcopy`, a
